@@ -785,7 +785,28 @@ def xglue(prop, tier, seed, t0):
     return automata_check(prop, tier, seed, t0, {"XGLUE", "C16"}, acampaigns.campaign_c12(seed, tier)[:40])
 
 
-REGISTRY = {"XGLUE": xglue, "XENUM": xenum, "C17": c17, "C11": c11, "C12": c12, "C13": c13, "C14": c14, "C15": c15, "C16": c16, "C01": c01, "C02": c02, "C03": c03, "C04": c04, "C05": c05, "C06": c06, "C07": c07, "C08": c08, "C09": c09, "C10": c10, "C18": c18, "C19": c19}
+def xemb(prop, tier, seed, t0):
+    """Extension beyond the listed properties (not registered): the embedded entry point
+    lltd_esp32_handle_frame - length guard and raw-opcode feeding of the three automata."""
+    import random
+    from vlib import Scenario
+    from framegen import header
+    rng = random.Random(seed)
+    scs = []
+    for i in range(8):
+        lines = ["NEW"]
+        for _ in range(300):
+            op = rng.choice([0, 1, 2, 3, 4, 6, 8, 9, 11, rng.randrange(256)])
+            f = header(rng.choice([0, 1, 2]), op, bytes(6), bytes([2, 0x4B, 0, 0, 0, 1]), bytes(6), bytes([2, 0x4B, 0, 0, 0, 1]), 1) + bytes(8)
+            ln = rng.choice([len(f), len(f), 32, 31, 18, 17, 0, rng.randrange(0, len(f) + 1)])
+            lines.append("ESP %d %s" % (ln, f.hex()))
+            if rng.random() < 0.3:
+                lines.append("ADV %d" % rng.choice([0, 500, 1000, 2000, 5000, 6000, 31000]))
+        scs.append(Scenario("xemb-%d" % i, lines))
+    return automata_check(prop, tier, seed, t0, {"XEMB"}, scs)
+
+
+REGISTRY = {"XEMB": xemb, "XGLUE": xglue, "XENUM": xenum, "C17": c17, "C11": c11, "C12": c12, "C13": c13, "C14": c14, "C15": c15, "C16": c16, "C01": c01, "C02": c02, "C03": c03, "C04": c04, "C05": c05, "C06": c06, "C07": c07, "C08": c08, "C09": c09, "C10": c10, "C18": c18, "C19": c19}
 
 
 # =========================================================================== replay
